@@ -24,3 +24,259 @@ Theorem const_redefinition_rejected :
     exists e, parse_const fuel consts ts = Err e /\ els e = tline (cur ts1) /\ ecs e = tsb (cur ts1).
 Proof. exact C13Proofs.const_redefinition_rejected. Qed.
 Print Assumptions const_redefinition_rejected.
+
+(* ---------- one theorem per documented site (ConstSites.v) ---------- *)
+(* `subst consts tk` = the substitution applied to the literal of one token. Whenever the model's parser accepts, the text it
+   records at each documented position is the substitution applied token by token to exactly the source tokens of that
+   position (then joined): command arguments, flag / var / defeated operands, comparison values, switch operands and case
+   values, map-script table entries, mart items, and the value of a later constant definition. Negative half: command names,
+   label names, movement steps and text content are recorded verbatim (those functions do not even take the constant table). *)
+
+From Pory Require Import Consume ConstSites.
+Theorem hyp_eof_ended_holds :
+  forall (hl hd hs : N -> bool) (src : text), eof_ended (lex hl hd hs src).
+Proof. exact ConstSites.hyp_eof_ended_holds. Qed.
+Print Assumptions hyp_eof_ended_holds.
+
+Theorem hyp_parse_format_holds :
+  forall (fc : Format.fontcfg) (cli_font : text) (cli_maxlen : Z) (ee : bool) (ts : toks) (tk : token) (v sty : text) (ts' : toks),
+  Format.parse_format fc cli_font cli_maxlen ee ts = Ok (tk, v, sty, ts') -> forall a : toks, advs a ts -> advs a ts'.
+Proof. exact ConstSites.hyp_parse_format_holds. Qed.
+Print Assumptions hyp_parse_format_holds.
+
+Theorem command_arguments_site :
+  forall (switches : list (text * text)) (env_errors : bool) (parse_format : toks -> res (token * text * text * toks))
+    (consts : list (text * text)),
+  (forall (ts : toks) (tk : token) (v sty : text) (ts' : toks),
+   parse_format ts = Ok (tk, v, sty, ts') -> forall a : toks, advs a ts -> advs a ts') ->
+  forall (f : nat) (script : text) (ts : toks) (c : cmd) (imp : impdata) (ts' : toks),
+  command_stmt switches env_errors parse_format consts f script ts = Ok (c, imp, ts') ->
+  eof_ended ts ->
+  (peekis LPAREN ts = false -> cargs c = [] /\ ts' = ts) /\
+  (peekis LPAREN ts = true ->
+   exists (lp : token) (its : list aitem),
+     ts = cur ts :: lp :: flat_map item_toks its ++ ts' /\
+     is LPAREN lp = true /\ curis RPAREN ts' = true /\ Forall item_ok its /\ idepth 0 its = Some 0 /\ cargs c = group_args consts [] its).
+Proof. exact ConstSites.command_arguments_site. Qed.
+Print Assumptions command_arguments_site.
+
+Theorem condition_operand_site :
+  forall (autovars : list (text * autovar)) (switches : list (text * text)) (env_errors : bool)
+    (parse_format : toks -> res (token * text * text * toks)) (consts : list (text * text)) (f : nat) (script : text) 
+    (ts0 : toks) (l : leaf) (imp : impdata) (ts' : toks),
+  leaf_expr autovars switches env_errors parse_format consts f script ts0 = Ok (l, imp, ts') ->
+  eof_ended ts0 ->
+  lpre l = None ->
+  exists (pre : list token) (op lp : token) (seg : list token) (rp : token) (rest : list token),
+    ts0 = pre ++ op :: lp :: seg ++ rp :: rest /\
+    (pre = [cur ts0] /\ peekis NOT ts0 = false \/ (exists nt : token, pre = [cur ts0; nt] /\ is NOT nt = true /\ peekis NOT ts0 = true)) /\
+    (ttype op = VAR \/ ttype op = FLAG \/ ttype op = DEFEATED) /\
+    lk l = op_kind op /\
+    is LPAREN lp = true /\
+    seg <> [] /\
+    Forall (fun tk : token => is RPAREN tk = false) seg /\
+    is RPAREN rp = true /\
+    loperand l = join sp (map (subst consts) seg) /\
+    (peekis NOT ts0 = true ->
+     lop l = OEq /\
+     lvalue l =
+     match lk l with
+     | KVar => t (String.String (Ascii.Ascii false false false false true true false false) String.EmptyString)
+     | _ =>
+         t
+           (String.String (Ascii.Ascii false true true false false false true false)
+              (String.String (Ascii.Ascii true false false false false false true false)
+                 (String.String (Ascii.Ascii false false true true false false true false)
+                    (String.String (Ascii.Ascii true true false false true false true false)
+                       (String.String (Ascii.Ascii true false true false false false true false) String.EmptyString)))))
+     end /\ ts' = rest) /\
+    (peekis NOT ts0 = false ->
+     match lk l with
+     | KVar => cond_var_operator consts f rest = Ok (lop l, lvalue l, lstrict l, ts')
+     | _ => exists nm : String.string, cond_flag_operator rest nm = Ok (lop l, lvalue l, ts')
+     end).
+Proof. exact ConstSites.condition_operand_site. Qed.
+Print Assumptions condition_operand_site.
+
+Theorem comparison_value_site :
+  forall (consts : list (text * text)) (f : nat) (ts : toks) (o : cmpop) (v : text) (strict : bool) (ts' : toks),
+  cond_var_operator consts f ts = Ok (o, v, strict, ts') ->
+  eof_ended ts ->
+  is_cmp_tok (cur ts) = None /\
+  o = ONe /\ v = t (String.String (Ascii.Ascii false false false false true true false false) String.EmptyString) /\ strict = false /\ ts' = ts \/
+  is_cmp_tok (cur ts) = Some o /\
+  strict = false /\
+  (exists seg : list token,
+     ts = cur ts :: seg ++ ts' /\
+     Forall (fun tk : token => cmp_stop tk = false) seg /\ cmp_stop (cur ts') = true /\ v = join sp (map (subst consts) seg)) \/
+  is_cmp_tok (cur ts) = Some o /\
+  strict = true /\
+  (exists (vt lp : token) (seg : list token) (rp : token),
+     ts = cur ts :: vt :: lp :: seg ++ rp :: ts' /\
+     is VALUE vt = true /\
+     is LPAREN lp = true /\ is RPAREN rp = true /\ pdepth 0 seg = Some 0 /\ v = join sp (wrap_value (map (subst consts) seg))).
+Proof. exact ConstSites.comparison_value_site. Qed.
+Print Assumptions comparison_value_site.
+
+Theorem switch_sites :
+  forall (autovars : list (text * autovar)) (switches : list (text * text)) (env_errors : bool)
+    (parse_format : toks -> res (token * text * text * toks)) (consts : list (text * text)),
+  (forall (ts : toks) (tk : token) (v sty : text) (ts' : toks),
+   parse_format ts = Ok (tk, v, sty, ts') -> forall a : toks, advs a ts -> advs a ts') ->
+  forall (f : nat) (script : text) (bs cs : list nat) (ts : toks) (ss : list stmt) (imp : impdata) (ts' : toks),
+  parse_switch autovars switches env_errors parse_format consts f script bs cs ts = Ok (ss, imp, ts') ->
+  eof_ended ts ->
+  exists (pre : list stmt) (tg : nat) (operand : text) (oline : Z) (cases : list (bool * text * Z * list stmt)),
+    ss = pre ++ [SSwitch tg operand oline cases] /\
+    Forall (case_from consts ts) cases /\
+    (peekis VAR (adv ts) = true ->
+     pre = [] /\
+     (exists (lp vr lp2 : token) (seg : list token) (rp : token) (rest : list token),
+        ts = cur ts :: lp :: vr :: lp2 :: seg ++ rp :: rest /\
+        is LPAREN lp = true /\
+        is VAR vr = true /\
+        is LPAREN lp2 = true /\
+        Forall (fun tk : token => is RPAREN tk = false /\ is EOF tk = false) seg /\
+        is RPAREN rp = true /\ operand = join sp (map (subst consts) seg))).
+Proof. exact ConstSites.switch_sites. Qed.
+Print Assumptions switch_sites.
+
+Theorem table_entry_site :
+  forall (autovars : list (text * autovar)) (switches : list (text * text)) (env_errors : bool)
+    (parse_format : toks -> res (token * text * text * toks)) (consts : list (text * text)),
+  (forall (ts : toks) (tk : token) (v sty : text) (ts' : toks),
+   parse_format ts = Ok (tk, v, sty, ts') -> forall a : toks, advs a ts -> advs a ts') ->
+  forall (f : nat) (mapname tyname : text) (ts : toks) (i : nat) (acc : list tableentry) (imp : impdata) (r : list tableentry * impdata * toks),
+  ms_table autovars switches env_errors parse_format consts (S f) mapname tyname ts i acc imp = Ok r ->
+  eof_ended ts ->
+  curis RBRACKET ts = false ->
+  exists (e : tableentry) (post : toks) (imp1 : impdata) (ts1 : toks),
+    entry_at consts ts e post /\
+    advs post ts1 /\
+    post <> ts1 /\ ms_table autovars switches env_errors parse_format consts f mapname tyname ts1 (S i) (acc ++ [e]) imp1 = Ok r.
+Proof. exact ConstSites.table_entry_site. Qed.
+Print Assumptions table_entry_site.
+
+Theorem table_entries_site :
+  forall (autovars : list (text * autovar)) (switches : list (text * text)) (env_errors : bool)
+    (parse_format : toks -> res (token * text * text * toks)) (consts : list (text * text)),
+  (forall (ts : toks) (tk : token) (v sty : text) (ts' : toks),
+   parse_format ts = Ok (tk, v, sty, ts') -> forall a : toks, advs a ts -> advs a ts') ->
+  forall (f : nat) (mapname tyname : text) (ts : toks) (i : nat) (acc : list tableentry) (imp : impdata) (es : list tableentry) 
+    (imp' : impdata) (ts' : toks),
+  ms_table autovars switches env_errors parse_format consts f mapname tyname ts i acc imp = Ok (es, imp', ts') ->
+  eof_ended ts -> exists news : list tableentry, es = acc ++ news /\ Forall (entry_from consts ts) news.
+Proof. exact ConstSites.table_entries_site. Qed.
+Print Assumptions table_entries_site.
+
+Theorem mart_items_site :
+  forall (switches : list (text * text)) (env_errors : bool) (consts : list (text * text)) (f : nat) (ts : toks) (tp : top) (ts' : toks),
+  parse_mart switches env_errors consts f ts = Ok (tp, ts') ->
+  eof_ended ts ->
+  exists (name : text) (g : bool) (tk : token) (itoks : list token),
+    tp = TMart name g tk (map (subst consts) itoks) itoks /\
+    Forall (src_ident ts) itoks /\
+    curis RBRACE ts' = true /\
+    (exists pre seg : list token,
+       ts = pre ++ seg ++ ts' /\ is LBRACE (last pre eof0) = true /\ (Forall (fun tk0 : token => is PORYSWITCH tk0 = false) seg -> itoks = seg)).
+Proof. exact ConstSites.mart_items_site. Qed.
+Print Assumptions mart_items_site.
+
+Theorem const_definition_site :
+  forall (consts : list (text * text)) (f : nat) (ts : toks) (consts' : list (text * text)) (ts' : toks),
+  parse_const f consts ts = Ok (consts', ts') ->
+  eof_ended ts ->
+  length ts <= f ->
+  exists (nm asg : token) (seg rest : list token),
+    ts = cur ts :: nm :: asg :: seg ++ rest /\
+    is IDENT nm = true /\
+    is ASSIGN asg = true /\
+    Forall (fun tk : token => is_toplevel (ttype tk) = false) seg /\
+    seg <> [] /\
+    ts' = last seg eof0 :: rest /\
+    is_toplevel (ttype (pk 1 ts')) || curis EOF ts' = true /\
+    assoc consts (tlit nm) = None /\ consts' = (tlit nm, sb_join (map (subst consts) seg)) :: consts.
+Proof. exact ConstSites.const_definition_site. Qed.
+Print Assumptions const_definition_site.
+
+Theorem program_constants_site :
+  forall (autovars : list (text * autovar)) (switches : list (text * text)) (env_errors : bool)
+    (parse_format : toks -> res (token * text * text * toks)),
+  (forall (ts : toks) (tk : token) (v sty : text) (ts' : toks),
+   parse_format ts = Ok (tk, v, sty, ts') -> forall a : toks, advs a ts -> advs a ts') ->
+  forall (f : nat) (st : pstate) (ts : toks) (st' : pstate),
+  parse_tops autovars switches env_errors parse_format f st ts = Ok st' ->
+  eof_ended ts -> length ts < f -> consts_from ts (pconsts st) (pconsts st').
+Proof. exact ConstSites.program_constants_site. Qed.
+Print Assumptions program_constants_site.
+
+Theorem command_name_verbatim :
+  forall (switches : list (text * text)) (env_errors : bool) (parse_format : toks -> res (token * text * text * toks))
+    (consts : list (text * text)) (f : nat) (script : text) (ts : toks) (c : cmd) (imp : impdata) (ts' : toks),
+  command_stmt switches env_errors parse_format consts f script ts = Ok (c, imp, ts') -> cname c = tlit (cur ts) /\ ctok c = cur ts.
+Proof. exact ConstSites.command_name_verbatim. Qed.
+Print Assumptions command_name_verbatim.
+
+Theorem label_name_verbatim :
+  forall (ts : toks) (l : stmt) (ts' : toks), try_label ts = Some (l, ts') -> exists g : bool, l = SLabel (tlit (cur ts)) g (cur ts).
+Proof. exact ConstSites.label_name_verbatim. Qed.
+Print Assumptions label_name_verbatim.
+
+Theorem identifier_statement_verbatim :
+  forall (autovars : list (text * autovar)) (switches : list (text * text)) (env_errors : bool)
+    (parse_format : toks -> res (token * text * text * toks)) (consts : list (text * text)) (f : nat) (script : text) 
+    (bs cs : list nat) (ts : toks) (ss : list stmt) (imp : impdata) (ts' : toks),
+  parse_stmt autovars switches env_errors parse_format consts f script bs cs ts = Ok (ss, imp, ts') ->
+  ttype (cur ts) = IDENT ->
+  (exists g : bool, ss = [SLabel (tlit (cur ts)) g (cur ts)]) \/ (exists c : cmd, ss = [SCmd c] /\ cname c = tlit (cur ts) /\ ctok c = cur ts).
+Proof. exact ConstSites.identifier_statement_verbatim. Qed.
+Print Assumptions identifier_statement_verbatim.
+
+Theorem names_verbatim_everywhere :
+  forall (autovars : list (text * autovar)) (switches : list (text * text)) (env_errors : bool)
+    (parse_format : toks -> res (token * text * text * toks)) (consts : list (text * text)),
+  (forall (ts : toks) (tk : token) (v sty : text) (ts' : toks),
+   parse_format ts = Ok (tk, v, sty, ts') -> forall a : toks, advs a ts -> advs a ts') ->
+  forall (f : nat) (script : text) (bs cs : list nat) (start : token) (ts : toks) (ss : list stmt) (imp : impdata) (ts' : toks),
+  parse_block autovars switches env_errors parse_format consts f script bs cs start ts [] imp0 = Ok (ss, imp, ts') ->
+  ts <> [] -> Forall (vstmt ts) ss.
+Proof. exact ConstSites.names_verbatim_everywhere. Qed.
+Print Assumptions names_verbatim_everywhere.
+
+Theorem movement_steps_verbatim :
+  forall (switches : list (text * text)) (env_errors : bool) (f : nat) (ts : toks) (tp : top) (ts' : toks),
+  parse_movement switches env_errors f ts = Ok (tp, ts') ->
+  exists (name : text) (g : bool) (tk : token) (steps : list token), tp = TMovement name g tk steps /\ Forall (src_ident ts) steps.
+Proof. exact ConstSites.movement_steps_verbatim. Qed.
+Print Assumptions movement_steps_verbatim.
+
+Theorem moves_operator_verbatim :
+  forall (switches : list (text * text)) (env_errors : bool) (f : nat) (ts : toks) (steps : list token) (ts' : toks),
+  moves_operator switches env_errors f ts = Ok (steps, ts') -> Forall (src_ident ts) steps.
+Proof. exact ConstSites.moves_operator_verbatim. Qed.
+Print Assumptions moves_operator_verbatim.
+
+Theorem text_content_verbatim :
+  forall (parse_format : toks -> res (token * text * text * toks)) (ts : toks) (v sty : text) (ts' : toks),
+  text_value parse_format ts = Ok (v, sty, ts') ->
+  curis STRING ts = true /\ sty = [] /\ v = terminate (tlit (cur ts)) [] /\ ts' = ts \/
+  curis STRINGTYPE ts = true /\ curis STRING (adv ts) = true /\ sty = tlit (cur ts) /\ v = terminate (tlit (cur (adv ts))) sty /\ ts' = adv ts \/
+  curis FORMAT ts = true /\ (exists (tk : token) (v0 : text), parse_format ts = Ok (tk, v0, sty, ts') /\ v = terminate v0 sty).
+Proof. exact ConstSites.text_content_verbatim. Qed.
+Print Assumptions text_content_verbatim.
+
+Theorem command_args_implicit :
+  forall (switches : list (text * text)) (env_errors : bool) (parse_format : toks -> res (token * text * text * toks))
+    (consts : list (text * text)),
+  (forall (ts : toks) (tk : token) (v sty : text) (ts' : toks),
+   parse_format ts = Ok (tk, v, sty, ts') -> forall a : toks, advs a ts -> advs a ts') ->
+  forall (f : nat) (script : text) (cmdtok : token) (cidv : nat) (ts : toks) (depth : nat) (parts args : list text) 
+    (imp : impdata) (args' : list text) (imp' : impdata) (ts' base : toks),
+  command_args switches env_errors parse_format consts f script cmdtok cidv ts depth parts args imp = Ok (args', imp', ts') ->
+  advs base ts ->
+  exists (nt : list imptext) (nm : list impmov),
+    idT imp' = idT imp ++ nt /\
+    idM imp' = idM imp ++ nm /\ Forall (text_from parse_format base) nt /\ Forall (fun im : impmov => Forall (src_ident base) (imToks im)) nm.
+Proof. exact ConstSites.command_args_implicit. Qed.
+Print Assumptions command_args_implicit.
+
